@@ -15,6 +15,7 @@ import (
 	"github.com/vechain/thor/v2/cmd/thor/node"
 	"github.com/vechain/thor/v2/logdb"
 	"github.com/vechain/thor/v2/thor"
+	"github.com/vechain/thor/v2/tx"
 
 	"verif/harness/internal/chainsim"
 	"verif/harness/internal/hx"
@@ -48,7 +49,28 @@ func trText(num, txi, logi uint32, bid thor.Bytes32, tm uint64, txid thor.Bytes3
 
 // canonicalRows recomputes, from the receipts the real repository returns for its best chain, the rows the
 // property prescribes: chain order, per-block running log index, tx index, clause index.
-func canonicalRows(s *chainsim.Sim) (evs, trs []row, err error) {
+func canonicalRows(s *chainsim.Sim, genRC *tx.Receipt) (evs, trs []row, err error) {
+	if genRC != nil {
+		// the rows initChainRepository writes for the genesis block: block 0, tx index 0, zero tx id / origin
+		g := s.Blocks[0].Header()
+		ec, tc := uint32(0), uint32(0)
+		for ci, o := range genRC.Outputs {
+			for _, e := range o.Events {
+				tp := e.Topics
+				if len(tp) > 5 {
+					tp = tp[:5]
+				}
+				evs = append(evs, row{num: 0, txi: 0, logi: ec, addr: e.Address, topics: tp,
+					s: evText(0, 0, ec, g.ID(), g.Timestamp(), thor.Bytes32{}, thor.Address{}, uint32(ci), e.Address, tp, e.Data)})
+				ec++
+			}
+			for _, t := range o.Transfers {
+				trs = append(trs, row{num: 0, txi: 0, logi: tc, a: t.Sender, b: t.Recipient,
+					s: trText(0, 0, tc, g.ID(), g.Timestamp(), thor.Bytes32{}, thor.Address{}, uint32(ci), t.Sender, t.Recipient, t.Amount.Bytes())})
+				tc++
+			}
+		}
+	}
 	best := s.Repo.NewBestChain()
 	head := s.Repo.BestBlockSummary().Header.Number()
 	for n := uint32(0); n <= head; n++ {
@@ -382,9 +404,26 @@ func execute(scn *chainsim.Scenario, oracle string, cov *hx.Coverage) outcome {
 	add := func(l, w string) { lines = append(lines, l); wants = append(wants, w) }
 	add(s.InitLine(), "ok")
 	ctx := context.Background()
+	// half of the histories start like a real node: the genesis builder's logs are in the log db (utils.go:initChainRepository)
+	var genRC *tx.Receipt
+	if scn.QSeed%2 == 0 {
+		genRC = chainsim.GenesisReceipt(hx.NewRand(scn.QSeed ^ 0x67656e))
+		w := db.NewWriter()
+		werr := w.Write(s.Blocks[0], tx.Receipts{genRC})
+		if werr == nil {
+			werr = w.Commit()
+		}
+		g := s.Blocks[0].Header()
+		want := "ok"
+		if werr != nil {
+			want = "err"
+		}
+		add(fmt.Sprintf("GEN %s %s %x %d%s", chainsim.N32(g.ID()), chainsim.N32(g.ParentID()), g.Timestamp(), len(genRC.Outputs), chainsim.OutTokens(genRC)), want)
+		cov.Count("history:with-genesis-rows")
+	}
 
 	check := func(nFilters int) error {
-		evs, trs, err := canonicalRows(s)
+		evs, trs, err := canonicalRows(s, genRC)
 		if err != nil {
 			return err
 		}
